@@ -100,6 +100,15 @@ theories/C27/Proofs.vos theories/C27/Proofs.vok theories/C27/Proofs.required_vos
 theories/C27/Props.vo theories/C27/Props.glob theories/C27/Props.v.beautified theories/C27/Props.required_vo: theories/C27/Props.v theories/C27/Model.vo theories/C27/Proofs.vo
 theories/C27/Props.vio: theories/C27/Props.v theories/C27/Model.vio theories/C27/Proofs.vio
 theories/C27/Props.vos theories/C27/Props.vok theories/C27/Props.required_vos: theories/C27/Props.v theories/C27/Model.vos theories/C27/Proofs.vos
+theories/C29/Model.vo theories/C29/Model.glob theories/C29/Model.v.beautified theories/C29/Model.required_vo: theories/C29/Model.v theories/C22/Model.vo
+theories/C29/Model.vio: theories/C29/Model.v theories/C22/Model.vio
+theories/C29/Model.vos theories/C29/Model.vok theories/C29/Model.required_vos: theories/C29/Model.v theories/C22/Model.vos
+theories/C29/Proofs.vo theories/C29/Proofs.glob theories/C29/Proofs.v.beautified theories/C29/Proofs.required_vo: theories/C29/Proofs.v theories/C22/Model.vo theories/C29/Model.vo
+theories/C29/Proofs.vio: theories/C29/Proofs.v theories/C22/Model.vio theories/C29/Model.vio
+theories/C29/Proofs.vos theories/C29/Proofs.vok theories/C29/Proofs.required_vos: theories/C29/Proofs.v theories/C22/Model.vos theories/C29/Model.vos
+theories/C29/Props.vo theories/C29/Props.glob theories/C29/Props.v.beautified theories/C29/Props.required_vo: theories/C29/Props.v theories/C22/Model.vo theories/C29/Model.vo theories/C29/Proofs.vo
+theories/C29/Props.vio: theories/C29/Props.v theories/C22/Model.vio theories/C29/Model.vio theories/C29/Proofs.vio
+theories/C29/Props.vos theories/C29/Props.vok theories/C29/Props.required_vos: theories/C29/Props.v theories/C22/Model.vos theories/C29/Model.vos theories/C29/Proofs.vos
 theories/C30/Model.vo theories/C30/Model.glob theories/C30/Model.v.beautified theories/C30/Model.required_vo: theories/C30/Model.v 
 theories/C30/Model.vio: theories/C30/Model.v 
 theories/C30/Model.vos theories/C30/Model.vok theories/C30/Model.required_vos: theories/C30/Model.v 
